@@ -822,6 +822,40 @@ fn gen(seed: u64, n: usize, profile: &str) {
                 }
                 list(vec![atom("ext"), c.sexp(), list(h)])
             }
+            "complete" => {
+                // completeness of eviction on the MODELLED fragment (task programs and combinators, no abort handles): any
+                // history, then every request that may still be outstanding is dropped; judged by the `ext` oracle clause
+                // (all requests resolved or dropped => is_done()), on the implementation alone
+                g.emit_tags = vec![10, 11, 12];
+                g.allow_abortable = false;
+                let c = match g.r.below(6) {
+                    // a request future polled once, then moved to a new task, next to something the same task keeps waiting for
+                    0 | 1 => {
+                        g.next_handle = 0;
+                        let mut a = vec![];
+                        for _ in 0..g.r.below(3) {
+                            a.push(Instr::Req(1 + g.r.below(2) as u32, g.opn(), g.expr()));
+                        }
+                        a.push(Instr::Handoff(1 + g.r.below(2) as u32, g.opn(), g.expr(), g.instrs(2, 2)));
+                        let b = if g.r.chance(2, 3) { vec![Instr::Req(1, g.opn(), g.expr())] } else { g.instrs(3, 1) };
+                        let j = if g.r.chance(1, 2) { Instr::Join(a, b) } else { Instr::Join(b, a) };
+                        let mut is = g.instrs(2, 2);
+                        is.push(j);
+                        is.extend(g.instrs(2, 2));
+                        Cmd::Task(is)
+                    }
+                    2 | 3 | 4 => g.cmd(2, 3, 12),
+                    _ => g.cmd(3, 6, 6),
+                };
+                let mut h = g.history(9, false, &[]);
+                for round in 0..2 {
+                    for k in 0..(if round == 0 { 14 } else { 20 }) {
+                        h.push(list(vec![atom("drop"), atom(k)]));
+                    }
+                }
+                h.push(list(vec![atom("poll")]));
+                list(vec![atom("ext"), c.sexp(), list(h)])
+            }
             "law" => {
                 g.emit_tags = vec![10, 11, 12];
                 g.allow_abortable = g.r.chance(1, 3);
